@@ -168,6 +168,64 @@ Example roundtrip_ex :
   end.
 Proof. vm_compute. split; [eexists; reflexivity|reflexivity]. Qed.
 
+(* ---------------------------------------------------------------- Unit::write as a whole *)
+
+(* The same for the model of Unit::write itself (header, DW_AT_stmt_list adjustment, reorder_base_types,
+   calculate_offsets, write, length patch, reference patches): whenever it returns Ok, the bytes appended to
+   .debug_info are a header of the computed length followed by the entries, which decode — with the
+   abbreviation table it hands to AbbreviationTable::write — to the tree that was written; the offsets it
+   stores for later cross-unit fix-ups (`uo_entries`) are the positions of the entries; every UnitRef
+   resolves to its target. The hypotheses after the arrow are about the tree found in the unit (ids unique
+   = it is a tree, documented String precondition, expression sizes, address space). *)
+Theorem unit_roundtrip : forall (dbg be : bool) (uidx : nat) (u : wunit) (p : uparams) (lstr str : list N)
+    (info : list byte) (abbrev_off : N) (out : uout),
+  unit_write dbg be uidx u p lstr str info abbrev_off = Ok out ->
+  exists ents1 ents2 root st line rng loc hdr,
+    reorder_base_types ents1 = Ok ents2 /\ length ents1 = length (u_entries u) /\
+    tree_of (S (length ents2)) ents2 0 = Ok root /\
+    let e := u_enc u in
+    let pos0 := UnitWr.blen info + UnitWr.blen hdr in
+    let cx := mkWcx e be uidx (UnitWr.blen info) (cs_entries st) (cs_codes st) line lstr str rng loc in
+    calc dbg e root (mkCst pos0 (repeat 0 (length ents2)) [] (repeat 0 (length ents2))) = Ok st /\
+    uo_entries out = cs_entries st /\ uo_abbrevs out = cs_abbrevs st /\ uo_unit_off out = UnitWr.blen info /\
+    (NoDup (die_ids root) -> die_expr_ok root -> die_decodable root -> UnitWr.blen (uo_info out) < 2 ^ 64 ->
+     forall f : eid -> list byte,
+       (forall id b, ref_value dbg be uidx (UnitWr.blen info) (cs_entries st) (wsz e) id = Some b -> f id = b) ->
+       (forall id, UnitWr.blen (f id) = wsz e) ->
+     exists ops hdr' sd,
+       write_die dbg cx root pos0 = Ok ops /\
+       uo_info out = info ++ hdr' ++ ops_resolved f ops /\ UnitWr.blen hdr' = UnitWr.blen hdr /\
+       uo_fixups out = ops_fixups pos0 ops /\
+       decode_die (S (length (ops_bytes ops))) e be (cs_abbrevs st) pos0 (ops_resolved f ops) = Some (sd, []) /\
+       dmatch cx f root pos0 (pos0 + ops_len ops) sd /\
+       (forall i q, In (i, q) (ops_marks pos0 ops) -> nth_error (uo_entries out) i = Some q) /\
+       (forall id w', In (WUnitRef id w') ops ->
+          exists q, In (id_idx id, q) (ops_marks pos0 ops) /\ fixed_num be (f id) = q - UnitWr.blen info)).
+Proof. exact unit_write_roundtrip_lemma. Qed.
+
+(* a unit built through the modelled API: root, a subprogram referencing a base type added after it; the
+   base type is written first (offset 13), the reference holds 13 *)
+Definition ex_unit : wunit :=
+  match unit_add true (unit_new (mkEnc 5 false 8)) 0 46 with
+  | Ok (_, u1) =>
+    match unit_add true u1 0 36 with
+    | Ok (_, u2) =>
+      match unit_upd u2 1 (entry_set true 73 (AvUnitRef (mkEid 0 2))) with
+      | Ok u3 => match unit_upd u3 2 (entry_set true 3 (AvString [x69])) with Ok u4 => u4 | _ => u3 end
+      | _ => u2 end
+    | _ => u1 end
+  | _ => unit_new (mkEnc 5 false 8) end.
+
+Example unit_roundtrip_ex :
+  match unit_write true false 0 ex_unit (mkUparams true false (Ok 0) (Ok []) (Ok [])) [] [] [] 0 with
+  | Ok out =>
+      uo_info out = [x12; x00; x00; x00; x05; x00; x01; x08; x00; x00; x00; x00;
+                     x01; x02; x69; x00; x03; x0d; x00; x00; x00; x00] /\
+      uo_entries out = [12; 16; 13]
+  | _ => False
+  end.
+Proof. vm_compute. split; reflexivity. Qed.
+
 (* ---------------------------------------------------------------- (3) abbreviation de-duplication *)
 
 (* AbbreviationTable::add returns the 1-based position of the FIRST occurrence of the abbreviation in the
